@@ -1,5 +1,6 @@
 import Morlock.Props.C03
 import Morlock.Proofs.ABEngines
+import Morlock.Proofs.EngineKeys
 /-!
 # C03 / C13 for the searches the bundled engines actually run
 
@@ -103,5 +104,110 @@ example : (alphabeta gX (constEx fullExploration) (turochampLeaf Proofs.exZ 8) 1
     V gX (constEx fullExploration) (turochampLeaf Proofs.exZ 8) 1 2 wE :=
   (turochamp_exact Proofs.exZ (fun pos turn => f32keyOfInt (materialPawns pos turn)) gX_evalOk 8 1 2 (by decide) wE {}
     rfl rfl).1
+
+/-! ## The engines' own games: no hypothesis on the evaluation
+
+`bernsteinGame z factor = boardGame z (bernsteinKeyF factor)` and `turochampGame z = boardGameW z turochampKey`
+(`Model/EngineExplore.lean`) are the games of the `bern-static~` / `turo-quiet~` configurations that the `c03` stream
+compares with the Go searches. Their evaluations are `float32` keys on every input (`Proofs/EngineKeys.lean`:
+`bernsteinGame_evalOk`, `turochampGame_evalOk`), so C13 / C03 hold for them without an `EvalOk` hypothesis. -/
+
+/-- **C13 for the BERNSTEIN engine** (its own evaluation `bernstein.Eval{Factor: factor}`, its plausible-move table). -/
+theorem bernstein_engine_clip (z : ZTable) (factor : Int) (limit : Int)
+    (rootPly : Int) (d : Nat) (hd : d ≤ 127) (w : World) (alpha beta : Score) (st : SState)
+    (htt : st.tt.slots.size = 0) (hc : st.cancelAt = none) (ha : okN d alpha) (hb : okN d beta)
+    (hab : rank alpha < rank beta) :
+    Clip (rank alpha) (rank beta) (rank (V (bernsteinGame z factor) (bernsteinExplore limit) .static rootPly d w))
+      (rank (alphabeta (bernsteinGame z factor) (bernsteinExplore limit) .static rootPly d w alpha beta st).1) := by
+  have h := C13.alphabeta_clip (bernsteinGame z factor) (bernsteinExplore limit) .static rootPly
+    (bernsteinGame_evalOk z factor) 0 d (Nat.le_refl _)
+    (by omega) w alpha beta st htt hc (by rw [Nat.zero_add]; exact ha) (by rw [Nat.zero_add]; exact hb) hab
+  exact h
+
+/-- **C03 for the BERNSTEIN engine**: at the full window the search returns exactly the negamax value of its own
+    evaluation over the tree of the plausible-move tables, with a principal variation. -/
+theorem bernstein_engine_exact (z : ZTable) (factor : Int) (limit : Int)
+    (rootPly : Int) (d : Nat) (hd : d ≤ 127) (w : World) (st : SState)
+    (htt : st.tt.slots.size = 0) (hc : st.cancelAt = none) :
+    (alphabeta (bernsteinGame z factor) (bernsteinExplore limit) .static rootPly d w negInfScore infScore st).1 =
+      V (bernsteinGame z factor) (bernsteinExplore limit) .static rootPly d w ∧
+    Principal (bernsteinGame z factor) (bernsteinExplore limit) .static rootPly d w
+      (alphabeta (bernsteinGame z factor) (bernsteinExplore limit) .static rootPly d w negInfScore infScore st).2.1 :=
+  ⟨C03.exact _ _ .static rootPly (bernsteinGame_evalOk z factor) d (by show 0 + d ≤ 127; omega) w st htt hc,
+   C03.pv_principal _ _ .static rootPly (bernsteinGame_evalOk z factor) d (by show 0 + d ≤ 127; omega) w st htt hc⟩
+
+/-- **C13 for the TUROCHAMP engine** (its own evaluation `turochamp.Eval{}`, which reads the castled flags; full
+    exploration in the main search, quiescence over the considerable moves with `fuel` plies at the leaves). -/
+theorem turochamp_engine_clip (z : ZTable) (fuel : Nat)
+    (rootPly : Int) (d : Nat) (hd : fuel + d ≤ 127) (w : World) (alpha beta : Score) (st : SState)
+    (htt : st.tt.slots.size = 0) (hc : st.cancelAt = none) (ha : okN (fuel + d) alpha) (hb : okN (fuel + d) beta)
+    (hab : rank alpha < rank beta) :
+    Clip (rank alpha) (rank beta)
+      (rank (V (turochampGame z) (constEx fullExploration) (turochampLeaf z fuel) rootPly d w))
+      (rank (alphabeta (turochampGame z) (constEx fullExploration) (turochampLeaf z fuel) rootPly d w alpha beta st).1) :=
+  C13.alphabeta_clip (turochampGame z) (constEx fullExploration) (turochampLeaf z fuel) rootPly (turochampGame_evalOk z)
+    fuel d (Nat.le_refl _) hd w alpha beta st htt hc ha hb hab
+
+/-- **C13 for the TUROCHAMP engine's quiescence search itself.** -/
+theorem turochamp_engine_quiescence_clip (z : ZTable)
+    (fuel : Nat) (hf : fuel ≤ 127) (w : World) (alpha beta : Score) (st : SState)
+    (htt : st.tt.slots.size = 0) (hc : st.cancelAt = none) (ha : okN fuel alpha) (hb : okN fuel beta)
+    (hab : rank alpha < rank beta) :
+    Clip (rank alpha) (rank beta) (rank (Q (turochampGame z) (turochampExplore z) fuel w))
+      (rank (quiesce (turochampGame z) (turochampExplore z) fuel w alpha beta st).1) := by
+  have h := C13.quiescence_clip (turochampGame z) (turochampExplore z) (turochampGame_evalOk z) 0 fuel (by omega) w
+    alpha beta st htt hc (by rw [Nat.zero_add]; exact ha) (by rw [Nat.zero_add]; exact hb) hab
+  exact h
+
+/-- **C03 for the TUROCHAMP engine**: at the full window the search returns exactly the negamax value whose leaves are
+    the considerable-moves quiescence values of its own evaluation, with a principal variation. -/
+theorem turochamp_engine_exact (z : ZTable) (fuel : Nat)
+    (rootPly : Int) (d : Nat) (hd : fuel + d ≤ 127) (w : World) (st : SState)
+    (htt : st.tt.slots.size = 0) (hc : st.cancelAt = none) :
+    (alphabeta (turochampGame z) (constEx fullExploration) (turochampLeaf z fuel) rootPly d w negInfScore infScore st).1 =
+      V (turochampGame z) (constEx fullExploration) (turochampLeaf z fuel) rootPly d w ∧
+    Principal (turochampGame z) (constEx fullExploration) (turochampLeaf z fuel) rootPly d w
+      (alphabeta (turochampGame z) (constEx fullExploration) (turochampLeaf z fuel) rootPly d w negInfScore infScore st).2.1 :=
+  ⟨C03.exact _ _ (turochampLeaf z fuel) rootPly (turochampGame_evalOk z) d hd w st htt hc,
+   C03.pv_principal _ _ (turochampLeaf z fuel) rootPly (turochampGame_evalOk z) d hd w st htt hc⟩
+
+/-! ### Instances on `wE` with the engines' own (float) evaluations. Only the `okN` / `rank` side conditions are decided;
+the games are not evaluated. -/
+
+example : Clip (rank (mateInXScore (-2))) (rank (mateInXScore 2))
+      (rank (V (bernsteinGame Proofs.exZ 8) (bernsteinExplore 7) .static 1 2 wE))
+      (rank (alphabeta (bernsteinGame Proofs.exZ 8) (bernsteinExplore 7) .static 1 2 wE (mateInXScore (-2))
+        (mateInXScore 2) {}).1) :=
+  bernstein_engine_clip Proofs.exZ 8 7 1 2 (by decide) wE (mateInXScore (-2)) (mateInXScore 2) {} rfl rfl
+    (by decide) (by decide) (by decide)
+
+example : (alphabeta (bernsteinGame Proofs.exZ 8) (bernsteinExplore 7) .static 1 2 wE negInfScore infScore {}).1 =
+    V (bernsteinGame Proofs.exZ 8) (bernsteinExplore 7) .static 1 2 wE :=
+  (bernstein_engine_exact Proofs.exZ 8 7 1 2 (by decide) wE {} rfl rfl).1
+
+example : Clip (rank (mateInXScore (-2))) (rank (mateInXScore 5))
+      (rank (V (turochampGame Proofs.exZ) (constEx fullExploration) (turochampLeaf Proofs.exZ 8) 1 2 wE))
+      (rank (alphabeta (turochampGame Proofs.exZ) (constEx fullExploration) (turochampLeaf Proofs.exZ 8) 1 2 wE
+        (mateInXScore (-2)) (mateInXScore 5) {}).1) :=
+  turochamp_engine_clip Proofs.exZ 8 1 2 (by decide) wE (mateInXScore (-2)) (mateInXScore 5) {} rfl rfl
+    (by decide) (by decide) (by decide)
+
+example : Clip (rank (heuristicScore (-5))) (rank (heuristicScore 5))
+      (rank (Q (turochampGame Proofs.exZ) (turochampExplore Proofs.exZ) 8 wE))
+      (rank (quiesce (turochampGame Proofs.exZ) (turochampExplore Proofs.exZ) 8 wE (heuristicScore (-5))
+        (heuristicScore 5) {}).1) :=
+  turochamp_engine_quiescence_clip Proofs.exZ 8 (by decide) wE (heuristicScore (-5)) (heuristicScore 5) {} rfl rfl
+    (by decide) (by decide) (by decide)
+
+example : (alphabeta (turochampGame Proofs.exZ) (constEx fullExploration) (turochampLeaf Proofs.exZ 8) 1 2 wE
+      negInfScore infScore {}).1 =
+    V (turochampGame Proofs.exZ) (constEx fullExploration) (turochampLeaf Proofs.exZ 8) 1 2 wE :=
+  (turochamp_engine_exact Proofs.exZ 8 1 2 (by decide) wE {} rfl rfl).1
+
+-- the evaluations themselves on `wE` are in range (instances of the bounds; nothing is evaluated)
+example : -2147483648 < (bernsteinGame Proofs.exZ 8).eval wE ∧ (bernsteinGame Proofs.exZ 8).eval wE < 2147483648 :=
+  bernsteinGame_evalOk Proofs.exZ 8 wE
+example : -2147483648 < (turochampGame Proofs.exZ).eval wE ∧ (turochampGame Proofs.exZ).eval wE < 2147483648 :=
+  turochampGame_evalOk Proofs.exZ wE
 
 end Morlock.Props.C13Engines
